@@ -16,8 +16,9 @@
 
    Function-like module: Init enumerates (Mode "enum"), draws at random (Mode
    "rand": TLC's RandomElement, reproducible with -seed) or lets the behaviour
-   build the input cell by cell (Mode "build", for -simulate); Eval computes the expected observables into `out`.  The
-   clauses of C05 about the definition are invariants of the evaluated states.
+   build the input cell by cell (Mode "build", for -simulate); Eval computes
+   the expected observables into `out`.  The clauses of C05 about the
+   definition are invariants of the evaluated states.
 *)
 EXTENDS Integers, Sequences, FiniteSets, TLC
 
